@@ -1259,6 +1259,40 @@ pub fn mono(genv: GlobalTypeEnv, file: core::File) -> (MonoFile, GlobalMonoEnv) 
         });
     }
 
+    // A type definition that is not generic itself can still mention instances of generic
+    // types in its fields (`struct S { a: Opt[int32] }`, `enum E { V(Pair[int32]) }`): those
+    // instances need their monomorphic definitions and names as well.
+    let plain_structs: Vec<StructDef> = m
+        .monoenv
+        .genv
+        .structs()
+        .values()
+        .filter(|def| def.generics.is_empty())
+        .cloned()
+        .collect();
+    for mut def in plain_structs {
+        for (_, ty) in def.fields.iter_mut() {
+            *ty = m.collapse_type_apps(ty);
+        }
+        m.monoenv.genv.insert_struct(def);
+    }
+    let plain_enums: Vec<EnumDef> = m
+        .monoenv
+        .genv
+        .enums()
+        .values()
+        .filter(|def| def.generics.is_empty())
+        .cloned()
+        .collect();
+    for mut def in plain_enums {
+        for (_, tys) in def.variants.iter_mut() {
+            for ty in tys.iter_mut() {
+                *ty = m.collapse_type_apps(ty);
+            }
+        }
+        m.monoenv.genv.insert_enum(def);
+    }
+
     // Drop all generic enum defs to avoid Go backend panics
     m.monoenv.retain_enums(|_n, def| def.generics.is_empty());
     m.monoenv.retain_structs(|_n, def| def.generics.is_empty());
